@@ -15,14 +15,12 @@ Nums == (0 - NumTop)..NumTop
 DomOf(dom) == CASE dom = "int" -> Ints [] dom = "str" -> Strs [] dom = "num" -> Nums
 Empties(dom) == IF dom = "str" THEN {FullStrTab[i] : i \in 1..EmptyN} ELSE {i - 2 : i \in 1..EmptyN}
 
-Experiments ==
-  UNION {IF InstTab[n].cls = "monoid"
-         THEN {[inst |-> n, e |-> e, inner |-> IF n \in Nested THEN InnerEmpty(InstTab[n].dom, e) ELSE 0, a |-> a, b |-> b] :
-                 e \in Empties(InstTab[n].dom), a \in DomOf(InstTab[n].dom), b \in DomOf(InstTab[n].dom)}
-         ELSE {[inst |-> n, e |-> 0, inner |-> 0, a |-> a, b |-> b] : a \in DomOf(InstTab[n].dom), b \in DomOf(InstTab[n].dom)}
-         : n \in Insts}
-
-Init == x \in Experiments
+\* one initial state per experiment (nested quantifiers: TLC enumerates them without building one large set)
+Init == \E n \in Insts :
+          LET dm == InstTab[n].dom
+              es == IF InstTab[n].cls = "monoid" THEN Empties(dm) ELSE {0} IN
+          \E e \in es, a \in DomOf(dm), b \in DomOf(dm) :
+             x = [inst |-> n, e |-> e, inner |-> IF n \in Nested THEN InnerEmpty(dm, e) ELSE 0, a |-> a, b |-> b]
 Next == UNCHANGED x
 Spec == Init /\ [][Next]_x
 
